@@ -1699,6 +1699,10 @@ def _unique_internal(ar, indices, counts, return_inverse=False):
     if return_index or return_counts:
         for i, v in enumerate(r["values"]):
             m = ar == v
+            if v != v:
+                # NaN (np.unique collapses all of them into one entry) never
+                # compares equal to itself
+                m = ar != ar
             if return_index:
                 indices[m].min(keepdims=True, out=r["indices"][i : i + 1])
             if return_counts:
@@ -1864,7 +1868,11 @@ def unique(ar, return_index=False, return_inverse=False, return_counts=False):
         # index in axis `1` (the one of unknown length). Reduce axis `1`
         # through summing to get an array with known dimensionality and the
         # mapping of the original values.
-        matches = (ar[:, None] == out["values"][None, :]).astype(np.intp)
+        matches = ar[:, None] == out["values"][None, :]
+        if np.issubdtype(ar.dtype, np.inexact):
+            # NaNs all map to the single NaN entry of the unique values
+            matches = matches | ((ar != ar)[:, None] & (out["values"] != out["values"])[None, :])
+        matches = matches.astype(np.intp)
         inverse = (matches * out["inverse"]).sum(axis=1)
         if NUMPY_GE_200:
             inverse = inverse.reshape(orig_shape)
